@@ -260,10 +260,15 @@ package ast
 //@   pure
 //@   ensures (result1 == nil) == (len(nodes) == 3) && (result1 == nil ==> result0 != nil)
 //@ func NewInArrayExprNode
-//@   props C10
+//@   props C10 C04
 //@   requires left != nil && right != nil
 //@   pure
 //@   ensures result != nil
+//@   ensures[holds-its-operands] fresh(result) && result.left == left && result.right == right
+//@ func NewUntypedSymbolNode
+//@   props C04
+//@   pure
+//@   ensures[names-the-symbol] result != nil && istype(result, *UntypedSymbolNode) && fresh(as(result, *UntypedSymbolNode)) && as(result, *UntypedSymbolNode).symbol == symbol
 //@ func (*BinaryExprNode).toUpper
 //@   props C10
 //@   requires stringNode != nil
@@ -302,10 +307,11 @@ package ast
 //@   pure
 //@   ensures result != nil
 //@ func NewStringArrayNode
-//@   props C10
+//@   props C10 C04
 //@   pure
 //@   ensures result != nil
-//@   invariant 1: result != nil && fresh(result) && forall(i, 0 <= i && i < len(result.values) ==> result.values[i] != nil)
+//@   ensures[one-constant-per-value] fresh(result) && len(result.values) == len(values) && forall(i, 0 <= i && i < len(values) ==> istype(result.values[i], *StringConstNode) && as(result.values[i], *StringConstNode).value == values[i])
+//@   invariant 1: result != nil && fresh(result) && forall(i, 0 <= i && i < len(result.values) ==> result.values[i] != nil) && len(result.values) == rangeindex + 1 && forall(i, 0 <= i && i <= rangeindex ==> istype(result.values[i], *StringConstNode) && allocated(as(result.values[i], *StringConstNode)) && as(result.values[i], *StringConstNode).value == values[i])
 
 // ---------------------------------------------------------------------------
 // Operator/type dispatch (C10, C01): the typed comparison node is chosen from the operand types.
